@@ -18,7 +18,7 @@ PACKAGES = {
 HOOK_COMMITS = ["5279cbd", "73ef5ac", "20fd7ae", "3d93e15", "4493d3a"]
 
 # properties whose check is finished and registered in MANIFEST.json (the integrator adds ids here)
-CLAIMED = ["C02", "C03", "C07", "C08", "C09", "C10", "C11", "C12", "C13", "C14", "C15", "C16", "C18", "C19", "C20"]
+CLAIMED = ["C%02d" % i for i in range(1, 21)]
 
 # properties deliberately not claimed, with the reason (none: all 20 are meant to be claimed)
 NOT_APPLICABLE = {}
